@@ -101,8 +101,9 @@ def generate(seed: int, config: str, tier: str) -> Dict[str, Any]:
     for _ in range(rng.randint(2, 6)):
         d = rng.choice(docs)
         queries.extend(gen_query.gen_queries(rng, _SCRATCH_ENV, d, 1, ctx_doc=ctxdoc, opts=opts, p_compound=0.2))
-    n_clients = rng.randint(1, 6)
-    n_jobs = rng.randint(3, 10)
+    deep = tier == "thorough"  # larger worlds in the thorough tier
+    n_clients = rng.randint(1, 8 if deep else 6)
+    n_jobs = rng.randint(3, 16 if deep else 10)
     clients: List[List[Dict[str, Any]]] = [[] for _ in range(n_clients)]
     for _ in range(n_jobs):
         clients[rng.randrange(n_clients)].append(
